@@ -1,6 +1,996 @@
-//! C15 — stub (not yet implemented; not registered in MANIFEST.json).
-use crate::fw::{CheckDef, Ctx};
+//! C15 — import emits ledger text that reads back as intended.
+//!
+//! Bounded-exhaustive enumeration of statement records for the three importers (CSV, ISO Camt053 XML,
+//! Viseca text). A statement record is a vector of fields; every field has a small alphabet whose first
+//! element is the *plain* value. The space is ALL records of every shape with at most d non-plain fields
+//! (d = 2 quick, 3 thorough) x the commodity-precision configuration {none, 2, 4}.
+//!
+//! Oracle: `tree` = the `syntax::plain::Transaction`s built by `okane::import::import` +
+//! `Txn::to_double_entry` (same calls, same files as `ImportCmd::run`), `text` = what the real
+//! `ImportCmd::run` prints for the same scratch files. `parse_ledger(text)` must succeed, contain exactly
+//! one transaction per tree transaction (and nothing else), and every re-read transaction must equal
+//! its tree field by field (numbers by value; the scale must be max(tree scale, configured precision)).
+//!
+//! Violation signatures are `<clause>/<cause>`: the clause is the first symptom (reparse-fails,
+//! extra-transaction, extra-posting, reread-differs-<tree field>, ...), the cause is the smallest
+//! sub-set of the non-plain fields (and precision) of the case that still violates, written as `<tree role>:<kind>`
+//! (e.g. `reread-differs-payee/payee:semicolon`). A violation of the all-plain record has cause `baseline`.
 
-pub const DEF: CheckDef = CheckDef { id: "C15", run, technique: "stub", rule: "stub", assumptions: &[], shards: 0, hang_s: 20, single_worker: false };
+use std::cell::RefCell;
+use std::collections::HashMap;
+use std::path::PathBuf;
 
-fn run(_ctx: &mut Ctx) {}
+use okane::import::{self, Format};
+use okane_core::parse::{parse_ledger, ParseOptions};
+use okane_core::syntax::{self, expr, plain};
+
+use crate::fw::{CheckDef, Ctx, Outcome};
+use crate::oka;
+
+pub const DEF: CheckDef = CheckDef {
+    id: "C15",
+    run,
+    technique: "bounded-exhaustive enumeration of statement records (field alphabets, all records with <= d non-plain fields) for the CSV, Camt053 and Viseca importers; differential oracle: importer-built syntax tree versus okane's own parser applied to the text printed by the real ImportCmd::run; violating cases are reduced to their smallest violating sub-set of non-plain fields, which names the signature",
+    rule: "case = (shape, precision, record). 15 shapes: csv-basic (index columns, liability, code+payee split by a rewrite rule, note, commodity column, balance), csv-credit-debit (label columns, tab delimiter, a 50-column account name so that the amount column overflows), csv-multi (rate, secondary amount/commodity, charge, conversion mode), csv-template (payee = '{category} - {note}', new_to_old), camt-<source> for the 7 text elements a rewrite rule can copy into the payee (creditor, debtor, ultimate creditor/debtor name, remittance info, additional transaction/entry info) each with AcctSvcrRef as code and booking date != value date, camt-entry-only (no TxDtls), camt-numeric (amounts, currency, TxAmt+CcyXchg, charges, opening/closing balance), viseca-basic, viseca-fx. Text alphabet (21): plain, semicolon, lparen, rparen, star, bang, digit-date, double-space, tab, leading-blank, trailing-blank, newline, newline-indent (an indented posting line), newline-date (a dated header line), cr, word-tag, key-value, cjk, empty, equals-at, long. Numeric alphabet: plain, 1,234.50, -0.5, CHF 12.00, $1.46, .02, 0, 12.345, and absent/present for optional columns (Viseca: plain, 1'234.50, .02, 0, 5, 1.2.3, 12.345). Commodity alphabet: plain, empty, $, 'US D', BRK.B, 'A;B'. Every statement carries the tested record followed by one plain anchor record. Precision of CHF/USD/EUR/VYM in {none,2,4}. ALL records with <= 2 (quick) / <= 3 (thorough) non-plain fields. states = statements imported (incl. minimisation re-runs), transitions = transactions compared field by field",
+    assumptions: &[
+        "the tree is built in the harness by the same public calls as ImportCmd::run (load_from_yaml, ConfigSet::select, import::import, Txn::to_double_entry) on the same scratch files, reading the file as UTF-8 bytes without encoding_rs_io (identical for the BOM-less UTF-8 statements generated here)",
+        "text that the importer trims / splits / rejects before building the tree is not judged (tree vs re-read text only); records the importer rejects are DON'T-CARE",
+        "account names, operator and rewrite rules come from the configuration and are plain; only statement content varies",
+        "scale clause: re-read scale must equal max(tree scale, configured precision of that commodity)",
+    ],
+    shards: 64,
+    hang_s: 30,
+    single_worker: false,
+};
+
+// ------------------------------------------------------------------------------------------------
+// Alphabets
+
+#[derive(Clone, Debug)]
+struct Alt {
+    label: &'static str,
+    /// None = the column / element is absent (or the cell is empty for optional CSV numerics).
+    value: Option<String>,
+}
+
+#[derive(Clone, Debug)]
+struct Field {
+    name: &'static str,
+    /// tree field(s) this statement field flows into (used in signatures)
+    role: &'static str,
+    /// alts[0] is the plain value
+    alts: Vec<Alt>,
+}
+
+const TEXT_KINDS: &[(&str, &str)] = &[
+    ("semicolon", "Shop; with semi"),
+    ("lparen", "(paren) start"),
+    ("rparen", "in)side"),
+    ("star", "* starred"),
+    ("bang", "! banged"),
+    ("digit-date", "2024/02/03 dated"),
+    ("double-space", "Dbl  space"),
+    ("tab", "Tab\tbed"),
+    ("leading-blank", "  lead"),
+    ("trailing-blank", "trail  "),
+    ("newline", "Line1\nLine2"),
+    ("newline-indent", "Inj\n    Injected  1 CHF"),
+    ("newline-date", "Inj\n2024/02/03 second"),
+    ("cr", "Car\rriage"),
+    ("word-tag", ":tag:"),
+    ("key-value", "key: value"),
+    ("cjk", "山田商店　東京"),
+    ("empty", ""),
+    ("equals-at", "x = 1 @ y"),
+    ("long", "A rather long description that goes well beyond the forty-eight columns of the amount column"),
+];
+
+const NUM_KINDS: &[(&str, &str)] = &[
+    ("comma-grouped", "1,234.50"),
+    ("negative", "-0.5"),
+    ("prefix-commodity", "CHF 12.00"),
+    ("dollar", "$1.46"),
+    ("no-int-digit", ".02"),
+    ("zero", "0"),
+    ("scale3", "12.345"),
+];
+
+const VNUM_KINDS: &[(&str, &str)] = &[
+    ("apostrophe-grouped", "1'234.50"),
+    ("no-int-digit", ".02"),
+    ("zero", "0"),
+    ("integer", "5"),
+    ("two-points", "1.2.3"),
+    ("scale3", "12.345"),
+];
+
+const COMMODITY_KINDS: &[(&str, &str)] = &[("empty", ""), ("symbol", "$"), ("space", "US D"), ("dot", "BRK.B"), ("semicolon", "A;B")];
+
+fn alt(label: &'static str, v: &str) -> Alt {
+    Alt { label, value: Some(v.to_string()) }
+}
+fn absent(label: &'static str) -> Alt {
+    Alt { label, value: None }
+}
+fn kinds(k: &[(&'static str, &'static str)]) -> Vec<Alt> {
+    k.iter().map(|(l, v)| alt(l, v)).collect()
+}
+/// text field, always present, plain default
+fn text(name: &'static str, role: &'static str, plain: &str) -> Field {
+    let mut alts = vec![alt("plain", plain)];
+    alts.extend(kinds(TEXT_KINDS));
+    Field { name, role, alts }
+}
+/// text field, absent by default
+fn opt_text(name: &'static str, role: &'static str, present: &str) -> Field {
+    let mut alts = vec![absent("absent"), alt("present", present)];
+    alts.extend(kinds(TEXT_KINDS));
+    Field { name, role, alts }
+}
+/// text field, present by default, may be absent
+fn text_or_absent(name: &'static str, role: &'static str, plain: &str) -> Field {
+    let mut alts = vec![alt("plain", plain), absent("absent")];
+    alts.extend(kinds(TEXT_KINDS));
+    Field { name, role, alts }
+}
+fn num(name: &'static str, role: &'static str, plain: &str, k: &[(&'static str, &'static str)]) -> Field {
+    let mut alts = vec![alt("plain", plain)];
+    alts.extend(kinds(k));
+    Field { name, role, alts }
+}
+/// numeric field absent by default
+fn opt_num(name: &'static str, role: &'static str, present: &str, k: &[(&'static str, &'static str)]) -> Field {
+    let mut alts = vec![absent("absent"), alt("present", present)];
+    alts.extend(kinds(k));
+    Field { name, role, alts }
+}
+/// numeric field present by default, may be absent
+fn num_or_absent(name: &'static str, role: &'static str, plain: &str, k: &[(&'static str, &'static str)]) -> Field {
+    let mut alts = vec![alt("plain", plain), absent("absent")];
+    alts.extend(kinds(k));
+    Field { name, role, alts }
+}
+fn commodity(name: &'static str, role: &'static str, plain: &str) -> Field {
+    let mut alts = vec![alt("plain", plain)];
+    alts.extend(kinds(COMMODITY_KINDS));
+    Field { name, role, alts }
+}
+fn choice(name: &'static str, role: &'static str, opts: &[(&'static str, &'static str)]) -> Field {
+    Field { name, role, alts: kinds(opts) }
+}
+
+// ------------------------------------------------------------------------------------------------
+// Shapes
+
+#[derive(Clone, Copy, Debug, PartialEq, Eq, Hash)]
+enum Kind {
+    CsvBasic,
+    CsvCreditDebit,
+    CsvMulti,
+    CsvTemplate,
+    /// index into CAMT_SOURCES
+    CamtText(usize),
+    CamtEntryOnly,
+    CamtNum,
+    VisecaBasic,
+    VisecaFx,
+}
+
+struct Shape {
+    name: String,
+    kind: Kind,
+    fields: Vec<Field>,
+}
+
+/// (element label, rewrite field key)
+const CAMT_SOURCES: &[(&str, &str)] = &[
+    ("Cdtr.Nm", "creditor_name"),
+    ("Dbtr.Nm", "debtor_name"),
+    ("UltmtCdtr.Nm", "ultimate_creditor_name"),
+    ("UltmtDbtr.Nm", "ultimate_debtor_name"),
+    ("RmtInf.Ustrd", "remittance_unstructured_info"),
+    ("AddtlTxInf", "additional_transaction_info"),
+    ("AddtlNtryInf", "additional_entry_info"),
+];
+
+fn shapes() -> Vec<Shape> {
+    let mut v = vec![];
+    v.push(Shape {
+        name: "csv-basic".into(),
+        kind: Kind::CsvBasic,
+        fields: vec![
+            text("payee", "payee", "Coffee Shop"),
+            opt_text("code", "code", "785403"),
+            text("note", "comment", "memo one"),
+            commodity("commodity", "commodity", "CHF"),
+            num("amount", "amount", "5", NUM_KINDS),
+            opt_num("balance", "balance", "100", NUM_KINDS),
+        ],
+    });
+    v.push(Shape {
+        name: "csv-credit-debit".into(),
+        kind: Kind::CsvCreditDebit,
+        fields: vec![
+            opt_num("credit", "amount", "5", NUM_KINDS),
+            num_or_absent("debit", "amount", "5", NUM_KINDS),
+            num_or_absent("balance", "balance", "100", NUM_KINDS),
+        ],
+    });
+    v.push(Shape {
+        name: "csv-multi".into(),
+        kind: Kind::CsvMulti,
+        fields: vec![
+            commodity("commodity", "commodity", "USD"),
+            commodity("secondary_commodity", "commodity", "JPY"),
+            num("amount", "amount", "5", NUM_KINDS),
+            num_or_absent("rate", "rate", "2", NUM_KINDS),
+            num_or_absent("secondary_amount", "amount", "10", NUM_KINDS),
+            opt_num("charge", "charge", "1.5", NUM_KINDS),
+            choice(
+                "conversion",
+                "config",
+                &[("extract/price_of_secondary", "extract price_of_secondary"), ("compute/price_of_secondary", "compute price_of_secondary"), ("extract/price_of_primary", "extract price_of_primary"), ("compute/price_of_primary", "compute price_of_primary")],
+            ),
+        ],
+    });
+    v.push(Shape {
+        name: "csv-template".into(),
+        kind: Kind::CsvTemplate,
+        fields: vec![
+            text("category", "payee", "Buy"),
+            text("description", "payee", "VANGUARD ETF"),
+            commodity("symbol", "commodity", "VYM"),
+            num_or_absent("quantity", "amount", "2", NUM_KINDS),
+            num_or_absent("price", "rate", "60.5", NUM_KINDS),
+            opt_num("fees", "charge", "0.5", NUM_KINDS),
+            num("amount", "amount", "-121.5", NUM_KINDS),
+        ],
+    });
+    for (i, (label, _)) in CAMT_SOURCES.iter().enumerate() {
+        if *label == "AddtlNtryInf" {
+            continue;
+        }
+        v.push(Shape { name: format!("camt-{}", label), kind: Kind::CamtText(i), fields: vec![text_or_absent("AcctSvcrRef", "code", "20211031/1/1"), text("source", "payee", "Yamada Shop")] });
+    }
+    // AddtlNtryInf: with TxDtls (code present) and entry-only (no TxDtls, hence no code)
+    v.push(Shape { name: "camt-AddtlNtryInf".into(), kind: Kind::CamtText(6), fields: vec![text_or_absent("AcctSvcrRef", "code", "20211031/1/1"), text("source", "payee", "Yamada Shop")] });
+    v.push(Shape { name: "camt-entry-only".into(), kind: Kind::CamtEntryOnly, fields: vec![text("source", "payee", "Yamada Shop"), num("amount", "amount", "5", NUM_KINDS), opt_num("charge", "charge", "1.5", NUM_KINDS)] });
+    v.push(Shape {
+        name: "camt-numeric".into(),
+        kind: Kind::CamtNum,
+        fields: vec![
+            num("amount", "amount", "5", NUM_KINDS),
+            commodity("Ccy", "commodity", "CHF"),
+            choice("CdtDbtInd", "amount", &[("debit", "DBIT"), ("credit", "CRDT")]),
+            opt_num("TxAmt", "amount", "4.5", NUM_KINDS),
+            num_or_absent("XchgRate", "rate", "1.1", NUM_KINDS),
+            opt_num("charge-included", "charge", "1.5", NUM_KINDS),
+            opt_num("charge-not-included", "charge", "1.5", NUM_KINDS),
+            num_or_absent("opening-balance", "balance", "100", NUM_KINDS),
+            num_or_absent("closing-balance", "balance", "74.5", NUM_KINDS),
+        ],
+    });
+    v.push(Shape {
+        name: "viseca-basic".into(),
+        kind: Kind::VisecaBasic,
+        fields: vec![text("payee", "payee", "certain, phone company CH"), text_or_absent("category", "none", "Telecommunication services"), num("amount", "amount", "52.10", VNUM_KINDS), choice("sign", "amount", &[("charge", ""), ("refund", " -")])],
+    });
+    v.push(Shape {
+        name: "viseca-fx".into(),
+        kind: Kind::VisecaFx,
+        fields: vec![
+            text("payee", "payee", "Europe Gas AT"),
+            choice("currency", "commodity", &[("foreign", "EUR"), ("same-as-primary", "CHF")]),
+            num("spent", "amount", "46.88", VNUM_KINDS),
+            num("amount", "amount", "52.10", VNUM_KINDS),
+            num_or_absent("rate", "rate", "1.092432", VNUM_KINDS),
+            num("equivalent", "none", "51.20", VNUM_KINDS),
+            choice("fee-line", "charge", &[("processing-fee", "Processing fee"), ("credit-of-fee", "Credit of processing fee"), ("none", "-")]),
+            num("fee", "charge", "0.90", VNUM_KINDS),
+            choice("sign", "amount", &[("charge", ""), ("refund", " -")]),
+        ],
+    });
+    v
+}
+
+const PRECS: [Option<u8>; 3] = [None, Some(2), Some(4)];
+/// commodities that get the configured precision (JPY and everything else stays unconfigured)
+const PREC_COMMODITIES: [&str; 4] = ["CHF", "USD", "EUR", "VYM"];
+
+struct Rendered {
+    config: String,
+    statement: String,
+    ext: &'static str,
+    /// transactions the statement describes (records, plus the opening-balance transaction of camt)
+    records: usize,
+}
+
+fn yaml_precisions(p: Option<u8>) -> String {
+    match p {
+        None => String::new(),
+        Some(n) => {
+            let mut s = String::from("  commodity:\n");
+            for c in PREC_COMMODITIES {
+                s.push_str(&format!("    {}:\n      precision: {}\n", c, n));
+            }
+            s
+        }
+    }
+}
+
+fn csv_cell(s: &str) -> String {
+    format!("\"{}\"", s.replace('"', "\"\""))
+}
+fn csv_row(cells: &[&str], delim: char) -> String {
+    let mut s = cells.iter().map(|c| csv_cell(c)).collect::<Vec<_>>().join(&delim.to_string());
+    s.push('\n');
+    s
+}
+fn xml_escape(s: &str) -> String {
+    s.replace('&', "&amp;").replace('<', "&lt;").replace('>', "&gt;").replace('"', "&quot;")
+}
+
+type Vals<'a> = Vec<Option<&'a str>>;
+
+fn render(shape: &Shape, prec: Option<u8>, v: &Vals) -> Rendered {
+    let g = |i: usize| -> &str { v[i].unwrap_or("") };
+    match shape.kind {
+        Kind::CsvBasic => {
+            let payee_cell = match v[1] {
+                None => g(0).to_string(),
+                Some(c) => format!("REF {} // {}", c, g(0)),
+            };
+            let config = format!(
+                "path: \".csv\"\nencoding: UTF-8\naccount: \"Liabilities:Okane Card\"\naccount_type: liability\ncommodity: CHF\nformat:\n  date: \"%Y-%m-%d\"\n  fields:\n    date: 1\n    payee: 2\n    amount: 3\n    note: 4\n    balance: 5\n    commodity: 6\n{}rewrite:\n  - matcher:\n      payee: '(?s)^REF (?P<code>.*?) // (?P<payee>.*)$'\n  - matcher:\n      payee: Grocery\n    account: Expenses:Grocery\n",
+                yaml_precisions(prec)
+            );
+            let mut st = csv_row(&["date", "payee", "amount", "note", "balance", "commodity"], ',');
+            st.push_str(&csv_row(&["2024-01-05", &payee_cell, g(4), g(2), g(5), g(3)], ','));
+            st.push_str(&csv_row(&["2024-01-06", "Migros Grocery", "20.5", "anchor memo", "", "CHF"], ','));
+            Rendered { config, statement: st, ext: "csv", records: 2 }
+        }
+        Kind::CsvCreditDebit => {
+            let config = format!(
+                "path: \".csv\"\nencoding: UTF-8\naccount: \"Assets:Okane Bank:Savings:Joint Account With Hanako\"\naccount_type: asset\ncommodity: CHF\nformat:\n  date: \"%Y/%m/%d\"\n  delimiter: \"\\t\"\n  fields:\n    date: 日付\n    payee: 摘要\n    debit: 引き出し額\n    credit: 預け入れ額\n    balance: 口座残高\n{}rewrite:\n  - matcher:\n      payee: Grocery\n    account: Expenses:Grocery\n",
+                yaml_precisions(prec)
+            );
+            let mut st = csv_row(&["日付", "摘要", "預け入れ額", "引き出し額", "口座残高"], '\t');
+            st.push_str(&csv_row(&["2024/01/05", "Coffee Shop", g(0), g(1), g(2)], '\t'));
+            st.push_str(&csv_row(&["2024/01/06", "Migros Grocery", "", "20.5", ""], '\t'));
+            Rendered { config, statement: st, ext: "csv", records: 2 }
+        }
+        Kind::CsvMulti => {
+            let (amode, rmode) = g(6).split_once(' ').expect("conversion mode");
+            let config = format!(
+                "path: \".csv\"\nencoding: UTF-8\naccount: \"Assets:Okane Bank\"\naccount_type: asset\noperator: Okane Bank (commission)\ncommodity:\n  primary: CHF\n  conversion:\n    amount: {}\n    rate: {}\nformat:\n  date: \"%Y-%m-%d\"\n  fields:\n    date: 1\n    payee: 2\n    amount: 3\n    commodity: 4\n    rate: 5\n    secondary_amount: 6\n    secondary_commodity: 7\n    charge: 8\n{}rewrite:\n  - matcher:\n      payee: Wire\n    account: Assets:Wire\n",
+                amode,
+                rmode,
+                yaml_precisions(prec)
+            );
+            let mut st = csv_row(&["date", "payee", "amount", "commodity", "rate", "secondary_amount", "secondary_commodity", "charge"], ',');
+            st.push_str(&csv_row(&["2024-01-05", "Wire to Japan", g(2), g(0), g(3), g(4), g(1), g(5)], ','));
+            st.push_str(&csv_row(&["2024-01-06", "Migros Grocery", "-20.5", "CHF", "", "", "", ""], ','));
+            Rendered { config, statement: st, ext: "csv", records: 2 }
+        }
+        Kind::CsvTemplate => {
+            let config = format!(
+                "path: \".csv\"\nencoding: UTF-8\naccount: \"Assets:Brokers:Schrank\"\naccount_type: asset\noperator: Broker Schrank\ncommodity:\n  primary: USD\nformat:\n  date: \"%m/%d/%Y\"\n  fields:\n    date: Date\n    payee:\n      template: \"{{category}} - {{4}}\"\n    category: Action\n    secondary_commodity: Symbol\n    secondary_amount: Quantity\n    rate: Price\n    charge: \"Fees & Comm\"\n    amount: Amount\n  row_order: new_to_old\n{}rewrite:\n  - account: Assets:Brokers:Schrank\n    matcher:\n    - category: Buy\n  - account: Income:Interest\n    matcher:\n    - category: Credit Interest\n",
+                yaml_precisions(prec)
+            );
+            let mut st = csv_row(&["Date", "Action", "Symbol", "Description", "Quantity", "Price", "Fees & Comm", "Amount"], ',');
+            // new_to_old: the anchor (newer) comes first in the file, the tested record is the older one
+            st.push_str(&csv_row(&["01/06/2024", "Credit Interest", "", "SCHWAB1 INT", "", "", "", "$6.60"], ','));
+            st.push_str(&csv_row(&["01/05/2024", g(0), g(2), g(1), g(3), g(4), g(5), g(6)], ','));
+            Rendered { config, statement: st, ext: "csv", records: 2 }
+        }
+        Kind::CamtText(k) => {
+            let mut e = CamtEntry::plain();
+            e.refr = v[0];
+            match k {
+                0 => e.cdtr = v[1],
+                1 => e.dbtr = v[1],
+                2 => e.ucdtr = v[1],
+                3 => e.udbtr = v[1],
+                4 => e.ustrd = v[1],
+                5 => e.addtl_tx = v[1],
+                6 => e.addtl_ntry = g(1),
+                _ => unreachable!(),
+            }
+            Rendered { config: camt_config(prec, CAMT_SOURCES[k].1), statement: camt_doc(&[e, CamtEntry::anchor(k)], Some("100"), Some("74.5")), ext: "xml", records: 3 }
+        }
+        Kind::CamtEntryOnly => {
+            let mut e = CamtEntry::plain();
+            e.txdtls = false;
+            e.addtl_ntry = g(0);
+            e.amt = g(1);
+            e.entry_charge = v[2].map(|a| (a, true));
+            Rendered { config: camt_config(prec, "additional_entry_info"), statement: camt_doc(&[e, CamtEntry::anchor(6)], Some("100"), Some("74.5")), ext: "xml", records: 3 }
+        }
+        Kind::CamtNum => {
+            let mut e = CamtEntry::plain();
+            e.amt = g(0);
+            e.ccy = g(1);
+            e.debit = g(2) == "DBIT";
+            e.tx_amt = v[3].map(|a| (a, v[4]));
+            e.tx_charge = v[5].map(|a| (a, true));
+            e.entry_charge = v[6].map(|a| (a, false));
+            let records = 2 + if v[7].is_some() { 1 } else { 0 };
+            Rendered { config: camt_config(prec, "creditor_name"), statement: camt_doc(&[e, CamtEntry::anchor(0)], v[7], v[8]), ext: "xml", records }
+        }
+        Kind::VisecaBasic => {
+            let mut st = format!("04.01.24 05.01.24 {} {}{}\n", g(0), g(2), g(3));
+            if let Some(c) = v[1] {
+                st.push_str(c);
+                st.push('\n');
+            }
+            st.push_str("10.01.24 11.01.24 Migros Grocery 20.50\nGrocery stores\n");
+            Rendered { config: viseca_config(prec), statement: st, ext: "txt", records: 2 }
+        }
+        Kind::VisecaFx => {
+            let mut st = format!("04.01.24 05.01.24 {} {} {} {}{}\nService stations\n", g(0), g(1), g(2), g(3), g(8));
+            if let Some(r) = v[4] {
+                st.push_str(&format!("Exchange rate {} of 05.01.24 CHF {}\n", r, g(5)));
+            }
+            if g(6) != "-" {
+                st.push_str(&format!("{} 1.75% CHF {}\n", g(6), g(7)));
+            }
+            st.push_str("10.01.24 11.01.24 Migros Grocery 20.50\nGrocery stores\n");
+            Rendered { config: viseca_config(prec), statement: st, ext: "txt", records: 2 }
+        }
+    }
+}
+
+fn viseca_config(prec: Option<u8>) -> String {
+    format!(
+        "path: \".txt\"\nencoding: UTF-8\naccount: \"Liabilities:Okane Card\"\naccount_type: liability\noperator: Okane Card (fee)\ncommodity: CHF\n{}rewrite:\n  - account: Expenses:Grocery\n    matcher:\n    - category: Grocery stores\n  - account: Expenses:Car:Gas\n    pending: true\n    matcher:\n    - category: Service stations\n",
+        if prec.is_some() { format!("format:\n{}", yaml_precisions(prec)) } else { String::new() }
+    )
+}
+
+fn camt_config(prec: Option<u8>, source_key: &str) -> String {
+    format!(
+        "path: \".xml\"\nencoding: UTF-8\naccount: \"Assets:Okane Bank\"\naccount_type: asset\noperator: Okane Bank (fee)\ncommodity: CHF\n{}rewrite:\n  - matcher:\n      {}: '(?s)^(?P<payee>.*)$'\n  - matcher:\n      payee: Grocery\n    account: Expenses:Grocery\n",
+        if prec.is_some() { format!("format:\n{}", yaml_precisions(prec)) } else { String::new() },
+        source_key
+    )
+}
+
+#[derive(Clone)]
+struct CamtEntry<'a> {
+    refr: Option<&'a str>,
+    cdtr: Option<&'a str>,
+    dbtr: Option<&'a str>,
+    ucdtr: Option<&'a str>,
+    udbtr: Option<&'a str>,
+    ustrd: Option<&'a str>,
+    addtl_tx: Option<&'a str>,
+    addtl_ntry: &'a str,
+    ccy: &'a str,
+    amt: &'a str,
+    debit: bool,
+    txdtls: bool,
+    /// TxAmt in EUR with an optional exchange rate
+    tx_amt: Option<(&'a str, Option<&'a str>)>,
+    /// (amount, included)
+    entry_charge: Option<(&'a str, bool)>,
+    tx_charge: Option<(&'a str, bool)>,
+    /// value date
+    day: &'a str,
+    /// booking date (printed as the effective date when it differs from the value date)
+    booked: &'a str,
+}
+
+impl<'a> CamtEntry<'a> {
+    fn plain() -> Self {
+        CamtEntry {
+            refr: Some("20211031/1/1"),
+            cdtr: Some("Creditor Ltd"),
+            dbtr: Some("Taro Yamada"),
+            ucdtr: Some("Ultimate Creditor"),
+            udbtr: Some("Ultimate Debtor"),
+            ustrd: Some("Invoice 42"),
+            addtl_tx: Some("Payment order"),
+            addtl_ntry: "Booking",
+            ccy: "CHF",
+            amt: "5",
+            debit: true,
+            txdtls: true,
+            tx_amt: None,
+            entry_charge: None,
+            tx_charge: None,
+            day: "2024-01-05",
+            booked: "2024-01-04",
+        }
+    }
+    /// plain record whose k-th source element matches the Grocery rule
+    fn anchor(k: usize) -> Self {
+        let mut e = CamtEntry::plain();
+        e.refr = Some("20211031/2/1");
+        e.amt = "20.5";
+        e.day = "2024-01-06";
+        e.booked = "2024-01-06";
+        let g = "Migros Grocery";
+        match k {
+            0 => e.cdtr = Some(g),
+            1 => e.dbtr = Some(g),
+            2 => e.ucdtr = Some(g),
+            3 => e.udbtr = Some(g),
+            4 => e.ustrd = Some(g),
+            5 => e.addtl_tx = Some(g),
+            _ => e.addtl_ntry = g,
+        }
+        e
+    }
+    fn charges_xml(c: Option<(&str, bool)>) -> String {
+        match c {
+            None => String::new(),
+            Some((a, incl)) => format!("<Chrgs><Rcrd><Amt Ccy=\"CHF\">{}</Amt><CdtDbtInd>DBIT</CdtDbtInd><ChrgInclInd>{}</ChrgInclInd></Rcrd></Chrgs>\n", xml_escape(a), incl),
+        }
+    }
+    fn xml(&self) -> String {
+        let ind = if self.debit { "DBIT" } else { "CRDT" };
+        let mut s = String::new();
+        s.push_str("<Ntry>\n");
+        s.push_str(&format!("<Amt Ccy=\"{}\">{}</Amt><CdtDbtInd>{}</CdtDbtInd><Sts>BOOK</Sts>\n", xml_escape(self.ccy), xml_escape(self.amt), ind));
+        s.push_str(&format!("<BookgDt><Dt>{}</Dt></BookgDt><ValDt><Dt>{}</Dt></ValDt>\n", self.booked, self.day));
+        s.push_str("<BkTxCd><Domn><Cd>PMNT</Cd><Fmly><Cd>ICDT</Cd><SubFmlyCd>AUTT</SubFmlyCd></Fmly></Domn></BkTxCd>\n");
+        s.push_str(&Self::charges_xml(self.entry_charge));
+        if self.txdtls {
+            s.push_str("<NtryDtls><TxDtls>\n<Refs>");
+            if let Some(r) = self.refr {
+                s.push_str(&format!("<AcctSvcrRef>{}</AcctSvcrRef>", xml_escape(r)));
+            }
+            s.push_str("<EndToEndId>NOTPROVIDED</EndToEndId></Refs>\n");
+            s.push_str(&format!("<Amt Ccy=\"{}\">{}</Amt><CdtDbtInd>{}</CdtDbtInd>\n", xml_escape(self.ccy), xml_escape(self.amt), ind));
+            if let Some((a, rate)) = self.tx_amt {
+                let x = match rate {
+                    Some(r) => format!("<CcyXchg><SrcCcy>CHF</SrcCcy><TrgtCcy>EUR</TrgtCcy><XchgRate>{}</XchgRate></CcyXchg>", xml_escape(r)),
+                    None => String::new(),
+                };
+                s.push_str(&format!("<AmtDtls><InstdAmt><Amt Ccy=\"EUR\">{}</Amt></InstdAmt><TxAmt><Amt Ccy=\"EUR\">{}</Amt>{}</TxAmt></AmtDtls>\n", xml_escape(a), xml_escape(a), x));
+            }
+            s.push_str(&Self::charges_xml(self.tx_charge));
+            s.push_str("<RltdPties>");
+            let party = |tag: &str, n: Option<&str>| match n {
+                Some(n) => format!("<{}><Nm>{}</Nm></{}>", tag, xml_escape(n), tag),
+                None => String::new(),
+            };
+            s.push_str(&party("Dbtr", self.dbtr));
+            s.push_str(&party("UltmtDbtr", self.udbtr));
+            s.push_str(&party("Cdtr", self.cdtr));
+            s.push_str(&party("UltmtCdtr", self.ucdtr));
+            s.push_str("</RltdPties>\n");
+            if let Some(u) = self.ustrd {
+                s.push_str(&format!("<RmtInf><Ustrd>{}</Ustrd></RmtInf>\n", xml_escape(u)));
+            }
+            if let Some(a) = self.addtl_tx {
+                s.push_str(&format!("<AddtlTxInf>{}</AddtlTxInf>\n", xml_escape(a)));
+            }
+            s.push_str("</TxDtls></NtryDtls>\n");
+        }
+        s.push_str(&format!("<AddtlNtryInf>{}</AddtlNtryInf>\n</Ntry>\n", xml_escape(self.addtl_ntry)));
+        s
+    }
+}
+
+fn camt_doc(entries: &[CamtEntry], opening: Option<&str>, closing: Option<&str>) -> String {
+    let mut s = String::from("<?xml version=\"1.0\" encoding=\"UTF-8\"?>\n<Document xmlns=\"urn:iso:std:iso:20022:tech:xsd:camt.053.001.04\">\n<BkToCstmrStmt>\n<Stmt>\n<Id>1</Id>\n");
+    let bal = |code: &str, a: &str| format!("<Bal><Tp><CdOrPrtry><Cd>{}</Cd></CdOrPrtry></Tp><Amt Ccy=\"CHF\">{}</Amt><CdtDbtInd>CRDT</CdtDbtInd><Dt><Dt>2024-01-01</Dt></Dt></Bal>\n", code, xml_escape(a));
+    if let Some(o) = opening {
+        s.push_str(&bal("OPBD", o));
+    }
+    if let Some(c) = closing {
+        s.push_str(&bal("CLBD", c));
+    }
+    for e in entries {
+        s.push_str(&e.xml());
+    }
+    s.push_str("</Stmt>\n</BkToCstmrStmt>\n</Document>\n");
+    s
+}
+
+// ------------------------------------------------------------------------------------------------
+// Running the real code and judging
+
+/// deviations: (field index, alt index >= 1), sorted by field index
+type Devs = Vec<(u8, u8)>;
+
+#[derive(Clone, Debug)]
+enum Judgement {
+    /// importer rejected the statement (both the library call and the CLI)
+    Rejected(String),
+    Ok { class: String },
+    Bad { clause: String, detail: String },
+}
+
+struct Env {
+    shapes: Vec<Shape>,
+    dir: PathBuf,
+    memo: RefCell<HashMap<(usize, usize, Devs), Judgement>>,
+    last_config: RefCell<String>,
+    runs: RefCell<u64>,
+    compared: RefCell<u64>,
+}
+
+fn values<'a>(shape: &'a Shape, devs: &Devs) -> Vals<'a> {
+    let mut idx = vec![0usize; shape.fields.len()];
+    for (f, a) in devs {
+        idx[*f as usize] = *a as usize;
+    }
+    shape.fields.iter().zip(idx).map(|(f, i)| f.alts[i].value.as_deref()).collect()
+}
+
+fn describe(shape: &Shape, prec: Option<u8>, devs: &Devs) -> String {
+    let r = render(shape, prec, &values(shape, devs));
+    let d: Vec<String> = devs.iter().map(|(f, a)| format!("{}={} {:?}", shape.fields[*f as usize].name, shape.fields[*f as usize].alts[*a as usize].label, shape.fields[*f as usize].alts[*a as usize].value)).collect();
+    format!("shape {} precision {:?} non-plain fields [{}]\n--- config ---\n{}--- statement (.{}) ---\n{}", shape.name, prec, d.join(", "), r.config, r.ext, r.statement)
+}
+
+fn err_chain(e: &dyn std::error::Error) -> String {
+    let mut s = e.to_string();
+    let mut cur = e.source();
+    while let Some(c) = cur {
+        s.push_str(" <- ");
+        s.push_str(&c.to_string());
+        cur = c.source();
+    }
+    s
+}
+
+fn err_class(e: &import::ImportError) -> String {
+    let d = format!("{:?}", e);
+    d.split(|c: char| !c.is_alphanumeric()).next().unwrap_or("").to_string()
+}
+
+fn judge(env: &Env, si: usize, pi: usize, devs: &Devs) -> Judgement {
+    if let Some(j) = env.memo.borrow().get(&(si, pi, devs.clone())) {
+        return j.clone();
+    }
+    let j = match crate::fw::guarded(|| judge_uncached(env, si, pi, devs)) {
+        Ok(j) => j,
+        Err(sig) if sig.contains("harness bug") => panic!("{}", sig),
+        Err(sig) => Judgement::Bad { clause: format!("crash/{}", sig), detail: "panic while importing this statement".into() },
+    };
+    env.memo.borrow_mut().insert((si, pi, devs.clone()), j.clone());
+    j
+}
+
+fn judge_uncached(env: &Env, si: usize, pi: usize, devs: &Devs) -> Judgement {
+    *env.runs.borrow_mut() += 1;
+    let shape = &env.shapes[si];
+    let prec = PRECS[pi];
+    let r = render(shape, prec, &values(shape, devs));
+    let cfg_path = env.dir.join("config.yml");
+    let src_path = env.dir.join(format!("statement.{}", r.ext));
+    if *env.last_config.borrow() != r.config {
+        std::fs::write(&cfg_path, &r.config).expect("write scratch config");
+        *env.last_config.borrow_mut() = r.config.clone();
+    }
+    std::fs::write(&src_path, r.statement.as_bytes()).expect("write scratch statement");
+
+    // ---- text: the real command ----
+    let mut out: Vec<u8> = vec![];
+    let cli = okane::cmd::ImportCmd { config: cfg_path.clone(), source: src_path.clone() }.run(&mut out);
+
+    // ---- tree: the same calls ImportCmd::run makes ----
+    let config_set = import::config::load_from_yaml(std::fs::File::open(&cfg_path).expect("open config")).unwrap_or_else(|e| panic!("harness bug: generated config does not load: {}", err_chain(&e)));
+    let entry = match config_set.select(&src_path) {
+        Ok(Some(e)) => e,
+        Ok(None) => panic!("harness bug: generated config does not match the scratch path"),
+        Err(e) => panic!("harness bug: generated config is invalid: {}", err_chain(&e)),
+    };
+    let format = match r.ext {
+        "csv" => Format::Csv,
+        "xml" => Format::IsoCamt053,
+        _ => Format::Viseca,
+    };
+    let txns = match import::import(std::fs::File::open(&src_path).expect("open statement"), format, &entry) {
+        Ok(t) => t,
+        Err(e) => {
+            return match cli {
+                Err(_) => Judgement::Rejected(format!("import-rejects/{}/{}", r.ext, err_class(&e))),
+                Ok(()) => Judgement::Bad { clause: "library-rejects-but-command-prints".into(), detail: format!("import::import fails ({}) but ImportCmd::run succeeded and printed:\n{}", err_chain(&e), String::from_utf8_lossy(&out)) },
+            };
+        }
+    };
+    let mut trees: Vec<plain::Transaction> = vec![];
+    for t in &txns {
+        match t.to_double_entry(&entry.account) {
+            Ok(x) => trees.push(x),
+            Err(e) => {
+                return match cli {
+                    Err(_) => Judgement::Rejected(format!("to-double-entry-rejects/{}/{}", r.ext, err_class(&e))),
+                    Ok(()) => Judgement::Bad { clause: "library-rejects-but-command-prints".into(), detail: format!("to_double_entry fails ({}) but ImportCmd::run succeeded", err_chain(&e)) },
+                };
+            }
+        }
+    }
+    if let Err(e) = cli {
+        return Judgement::Bad { clause: "command-fails-but-library-imports".into(), detail: format!("import::import + to_double_entry build {} transactions but ImportCmd::run fails: {}", trees.len(), err_chain(&e)) };
+    }
+    let text = match String::from_utf8(out) {
+        Ok(t) => t,
+        Err(_) => return Judgement::Bad { clause: "output-not-utf8".into(), detail: "ImportCmd::run printed bytes that are not UTF-8".into() },
+    };
+    let show = |extra: String| format!("{}\n--- printed by import ---\n{}", extra, text);
+
+    // one transaction per statement record
+    if trees.len() != r.records {
+        return Judgement::Bad { clause: "record-count".into(), detail: show(format!("the statement holds {} records but the importer built {} transactions", r.records, trees.len())) };
+    }
+
+    // ---- re-read ----
+    let mut got: Vec<plain::Transaction> = vec![];
+    let mut other_kinds: Vec<String> = vec![];
+    for item in parse_ledger::<plain::Ident>(&ParseOptions::default(), &text) {
+        match item {
+            Ok((_, syntax::LedgerEntry::Txn(t))) => got.push(t),
+            Ok((_, other)) => {
+                let d = format!("{:?}", other);
+                other_kinds.push(d.split(|c: char| !c.is_alphanumeric()).next().unwrap_or("").to_string());
+            }
+            Err(e) => {
+                return Judgement::Bad { clause: "reparse-fails".into(), detail: show(format!("okane's parser rejects the printed text after {} transaction(s):\n{}", got.len(), e)) };
+            }
+        }
+    }
+    if !other_kinds.is_empty() {
+        return Judgement::Bad { clause: format!("extra-entry-{}", other_kinds[0].to_lowercase()), detail: show(format!("the printed text re-reads with entries that are not transactions: {:?}", other_kinds)) };
+    }
+    if got.len() > trees.len() {
+        return Judgement::Bad { clause: "extra-transaction".into(), detail: show(format!("{} transactions were built but the printed text re-reads as {} transactions", trees.len(), got.len())) };
+    }
+    if got.len() < trees.len() {
+        return Judgement::Bad { clause: "missing-transaction".into(), detail: show(format!("{} transactions were built but the printed text re-reads as {} transactions", trees.len(), got.len())) };
+    }
+    *env.compared.borrow_mut() += trees.len() as u64;
+    for (i, (t, g)) in trees.iter().zip(got.iter()).enumerate() {
+        if let Some((symptom, what)) = compare_txn(t, g, prec) {
+            return Judgement::Bad { clause: symptom, detail: show(format!("transaction #{}: {}\n--- tree built by the importer ---\n{:#?}", i + 1, what, t)) };
+        }
+    }
+    // class: which syntactic features were exercised
+    let mut flags: Vec<&str> = vec![];
+    let any = |f: &dyn Fn(&plain::Transaction) -> bool| trees.iter().any(|t| f(t));
+    if any(&|t| t.code.is_some()) {
+        flags.push("code");
+    }
+    if any(&|t| t.effective_date.is_some()) {
+        flags.push("edate");
+    }
+    if any(&|t| !t.metadata.is_empty()) {
+        flags.push("comment");
+    }
+    if any(&|t| t.posts.iter().any(|p| p.amount.as_ref().map(|a| a.cost.is_some()).unwrap_or(false))) {
+        flags.push("rate");
+    }
+    if any(&|t| t.posts.iter().any(|p| p.balance.is_some())) {
+        flags.push("balance");
+    }
+    if any(&|t| t.posts.len() > 2) {
+        flags.push("charge");
+    }
+    if any(&|t| t.posts.iter().any(|p| p.clear_state == syntax::ClearState::Pending)) {
+        flags.push("pending");
+    }
+    let padded = prec.is_some();
+    Judgement::Ok { class: format!("roundtrip-ok/{}/{}{}", r.ext, if flags.is_empty() { "bare".to_string() } else { flags.join("+") }, if padded { "/padded" } else { "" }) }
+}
+
+fn configured_precision(prec: Option<u8>, commodity: &str) -> u32 {
+    match prec {
+        Some(p) if PREC_COMMODITIES.contains(&commodity) => p as u32,
+        _ => 0,
+    }
+}
+
+/// Compares one amount of the tree with the re-read value expression. Returns (symptom suffix, text).
+fn compare_amount(what: &str, t: &expr::ValueExpr, g: &expr::ValueExpr, prec: Option<u8>) -> Option<(String, String)> {
+    let ta = match t {
+        expr::ValueExpr::Amount(a) => a,
+        _ => panic!("harness bug: importer trees only hold plain amounts"),
+    };
+    let ga = match g {
+        expr::ValueExpr::Amount(a) => a,
+        other => return Some((format!("{}-shape", what), format!("{} {} {:?} re-read as an expression {:?}", what, ta.value, ta.commodity, other))),
+    };
+    if ta.commodity != ga.commodity {
+        return Some((format!("{}-commodity", what), format!("{} commodity {:?} re-read as {:?}", what, ta.commodity, ga.commodity)));
+    }
+    if ta.value.value != ga.value.value {
+        return Some((format!("{}-value", what), format!("{} value {} re-read as {}", what, ta.value.value, ga.value.value)));
+    }
+    let (ts, gs) = (ta.value.value.scale(), ga.value.value.scale());
+    let want = ts.max(configured_precision(prec, &ta.commodity));
+    if gs < ts {
+        return Some((format!("{}-scale-shrunk", what), format!("{} {} (scale {}) printed with scale {}", what, ta.value.value, ts, gs)));
+    }
+    if gs > want {
+        return Some((format!("{}-scale-beyond-precision", what), format!("{} {} (scale {}, configured precision {:?}) printed with scale {}", what, ta.value.value, ts, prec, gs)));
+    }
+    if gs < want {
+        return Some((format!("{}-not-padded", what), format!("{} {} (scale {}) not padded to the configured precision {}: printed with scale {}", what, ta.value.value, ts, want, gs)));
+    }
+    None
+}
+
+fn compare_txn(t: &plain::Transaction, g: &plain::Transaction, prec: Option<u8>) -> Option<(String, String)> {
+    let d = |field: &str, a: String, b: String| Some((format!("reread-differs-{}", field), format!("{}: built {} but re-read {}", field, a, b)));
+    if g.posts.len() > t.posts.len() {
+        return Some(("extra-posting".into(), format!("built {} postings but re-read {}: {:?}", t.posts.len(), g.posts.len(), g.posts.iter().map(|p| p.account.to_string()).collect::<Vec<_>>())));
+    }
+    if g.posts.len() < t.posts.len() {
+        return Some(("missing-posting".into(), format!("built {} postings but re-read {}: {:?}", t.posts.len(), g.posts.len(), g.posts.iter().map(|p| p.account.to_string()).collect::<Vec<_>>())));
+    }
+    if t.payee != g.payee {
+        return d("payee", format!("{:?}", t.payee), format!("{:?} (code {:?}, metadata {:?}, {} postings)", g.payee, g.code, g.metadata, g.posts.len()));
+    }
+    if t.code != g.code {
+        return d("code", format!("{:?}", t.code), format!("{:?}", g.code));
+    }
+    if t.date != g.date {
+        return d("date", t.date.to_string(), g.date.to_string());
+    }
+    if t.effective_date != g.effective_date {
+        return d("effective-date", format!("{:?}", t.effective_date), format!("{:?}", g.effective_date));
+    }
+    if t.clear_state != g.clear_state {
+        return d("state", format!("{:?}", t.clear_state), format!("{:?}", g.clear_state));
+    }
+    if t.metadata != g.metadata {
+        return d("metadata", format!("{:?}", t.metadata), format!("{:?}", g.metadata));
+    }
+    for k in 0..t.posts.len() {
+        let (tp, gp) = (&t.posts[k], &g.posts[k]);
+        let n = k + 1;
+        if tp.account.as_ref() as &str != gp.account.as_ref() as &str {
+            return d("account", format!("posting {} {:?}", n, tp.account), format!("{:?}", gp.account));
+        }
+        if tp.clear_state != gp.clear_state {
+            return d("posting-state", format!("posting {} {:?}", n, tp.clear_state), format!("{:?}", gp.clear_state));
+        }
+        match (&tp.amount, &gp.amount) {
+            (None, None) => {}
+            (Some(ta), Some(ga)) => {
+                if let Some((s, w)) = compare_amount("amount", &ta.amount, &ga.amount, prec) {
+                    return Some((format!("reread-differs-{}", s), format!("posting {}: {}", n, w)));
+                }
+                match (&ta.cost, &ga.cost) {
+                    (None, None) => {}
+                    (Some(syntax::Exchange::Rate(tr)), Some(syntax::Exchange::Rate(gr))) | (Some(syntax::Exchange::Total(tr)), Some(syntax::Exchange::Total(gr))) => {
+                        if let Some((s, w)) = compare_amount("rate", tr, gr, prec) {
+                            return Some((format!("reread-differs-{}", s), format!("posting {}: {}", n, w)));
+                        }
+                    }
+                    (a, b) => return d("rate", format!("posting {} {:?}", n, a), format!("{:?}", b)),
+                }
+                if format!("{:?}", ta.lot) != format!("{:?}", ga.lot) {
+                    return d("lot", format!("posting {} {:?}", n, ta.lot), format!("{:?}", ga.lot));
+                }
+            }
+            (a, b) => return d("amount", format!("posting {} {:?}", n, a), format!("{:?}", b)),
+        }
+        match (&tp.balance, &gp.balance) {
+            (None, None) => {}
+            (Some(tb), Some(gb)) => {
+                if let Some((s, w)) = compare_amount("balance", tb, gb, prec) {
+                    return Some((format!("reread-differs-{}", s), format!("posting {}: {}", n, w)));
+                }
+            }
+            (a, b) => return d("balance", format!("posting {} {:?}", n, a), format!("{:?}", b)),
+        }
+        if tp.metadata != gp.metadata {
+            return d("posting-metadata", format!("posting {} {:?}", n, tp.metadata), format!("{:?}", gp.metadata));
+        }
+    }
+    None
+}
+
+fn is_bad(j: &Judgement) -> bool {
+    matches!(j, Judgement::Bad { .. })
+}
+
+/// Smallest violating sub-case: all sub-sets of (non-plain fields, precision) in order of size (then
+/// in a fixed order), first one that still violates. Deterministic and memoised; the full set violates,
+/// so the search always ends. (A greedy one-at-a-time reduction is not enough: removing one field of a
+/// record can turn it into one the importer rejects, which hides a smaller violating sub-set.)
+fn minimise(env: &Env, si: usize, pi: usize, devs: &Devs) -> (usize, Devs) {
+    let n = devs.len() + if pi != 0 { 1 } else { 0 };
+    let mut masks: Vec<u32> = (0..(1u32 << n)).collect();
+    masks.sort_by_key(|m| (m.count_ones(), *m));
+    for m in masks {
+        let d: Devs = devs.iter().enumerate().filter(|(i, _)| m & (1 << i) != 0).map(|(_, x)| *x).collect();
+        let p = if pi != 0 && m & (1 << devs.len()) != 0 { pi } else { 0 };
+        if is_bad(&judge(env, si, p, &d)) {
+            return (p, d);
+        }
+    }
+    panic!("harness bug: the full case must violate");
+}
+
+fn cause(shape: &Shape, pi: usize, devs: &Devs) -> String {
+    // pure presence toggles (an optional column / element being there or not) are not part of the cause
+    let mut parts: Vec<String> = devs
+        .iter()
+        .map(|(f, a)| (shape.fields[*f as usize].role, shape.fields[*f as usize].alts[*a as usize].label))
+        .filter(|(_, l)| *l != "absent" && *l != "present")
+        .map(|(r, l)| format!("{}:{}", r, l))
+        .collect();
+    if pi != 0 {
+        parts.push(format!("precision:{}", PRECS[pi].unwrap()));
+    }
+    if parts.is_empty() {
+        "baseline".into()
+    } else {
+        parts.join("+")
+    }
+}
+
+fn outcome(env: &Env, si: usize, pi: usize, devs: &Devs) -> Outcome {
+    match judge(env, si, pi, devs) {
+        Judgement::Rejected(c) => Outcome::dont_care(c),
+        Judgement::Ok { class } => Outcome::pass(class),
+        Judgement::Bad { clause, detail } => {
+            let (mpi, mdevs) = minimise(env, si, pi, devs);
+            let shape = &env.shapes[si];
+            let (mclause, mdetail) = match judge(env, si, mpi, &mdevs) {
+                Judgement::Bad { clause, detail } => (clause, detail),
+                _ => panic!("harness bug: minimised case does not violate"),
+            };
+            let sig = format!("{}/{}", mclause, cause(shape, mpi, &mdevs));
+            let det = if mdevs == *devs && mpi == pi {
+                detail
+            } else {
+                format!("this case violates clause `{}`; it reduces to the smallest violating sub-case below (clause `{}`)\n=== minimal case ===\n{}\n=== verdict on the minimal case ===\n{}\n=== verdict on this case ===\n{}", clause, mclause, describe(shape, PRECS[mpi], &mdevs), mdetail, detail)
+            };
+            Outcome::violation(sig, det)
+        }
+    }
+}
+
+/// all deviation vectors with exactly k non-plain fields, in lexicographic order
+fn for_each_dev(sizes: &[usize], k: usize, f: &mut dyn FnMut(&Devs)) {
+    fn rec(sizes: &[usize], start: usize, k: usize, cur: &mut Devs, f: &mut dyn FnMut(&Devs)) {
+        if k == 0 {
+            f(cur);
+            return;
+        }
+        for fi in start..sizes.len() {
+            for a in 1..sizes[fi] {
+                cur.push((fi as u8, a as u8));
+                rec(sizes, fi + 1, k - 1, cur, f);
+                cur.pop();
+            }
+        }
+    }
+    let mut cur = vec![];
+    rec(sizes, 0, k, &mut cur, f);
+}
+
+fn run(ctx: &mut Ctx) {
+    let env = Env { shapes: shapes(), dir: oka::scratch_dir("c15"), memo: RefCell::new(HashMap::new()), last_config: RefCell::new(String::new()), runs: RefCell::new(0), compared: RefCell::new(0) };
+    let maxdev = ctx.tier.pick(2usize, 3usize);
+    ctx.fact("max_non_plain_fields", maxdev as u64);
+    ctx.fact("shapes", env.shapes.len() as u64);
+    ctx.fact("text_alphabet", (TEXT_KINDS.len() + 1) as u64);
+    for k in 0..=maxdev {
+        for si in 0..env.shapes.len() {
+            let sizes: Vec<usize> = env.shapes[si].fields.iter().map(|f| f.alts.len()).collect();
+            for pi in 0..PRECS.len() {
+                let mut list: Vec<Devs> = vec![];
+                for_each_dev(&sizes, k, &mut |d| list.push(d.clone()));
+                for devs in &list {
+                    if !ctx.next_is_mine() {
+                        ctx.skip_cases(1);
+                        continue;
+                    }
+                    let (r0, c0) = (*env.runs.borrow(), *env.compared.borrow());
+                    ctx.case(|| describe(&env.shapes[si], PRECS[pi], devs), || outcome(&env, si, pi, devs));
+                    let (r1, c1) = (*env.runs.borrow(), *env.compared.borrow());
+                    ctx.count("states", r1 - r0);
+                    ctx.count("transitions", c1 - c0);
+                }
+            }
+        }
+    }
+}
